@@ -114,3 +114,9 @@ package api
 //@   modifies nothing
 //@   ensures UpdKey(result) == id && result.Power == power
 //@   note wraps the 32 key bytes in the CometBFT public-key envelope; the key is recoverable from the envelope (UpdKey)
+
+//@ func Context.SetTxSigner
+//@   props C09
+//@   requires c != nil
+//@   modifies c.txSigner, c.callerAddress
+//@   ensures Signer(c) == txSigner
